@@ -420,6 +420,20 @@ def c07_fuzz(ncases, per_case):
                 return {rnd.choice(names): rjson(d - 1) for _ in range(rnd.randrange(0, 6))}
             return [rjson(d - 1) for _ in range(rnd.randrange(0, 4))]
 
+        # texts that are echoed into error messages: printf conversions must stay data.  First the
+        # deterministic ones (a lexer error quotes the unterminated token; member values may be quoted
+        # by item messages), one fresh keyring per text and entry point
+        convs = [b"%s%s%s%s%s%s%s%s%s%s%s%s", b"%n%n%n%n%n%n%n%n", b"%2000000000d%n", b"%5$s", b"%", b"100%%", b"%x.%x.%x.%x.%lx.%p"]
+        hostile = []
+        for cv in convs:
+            hostile += [b'"' + cv, b'{"kty":"oct","k":"20' + cv, b'["' + cv, cv, b'{"keys":[{"kty":"' + cv + b'"}]}',
+                        b'{"keys":[{"kty":"oct","k":"' + cv + b'"}]}', b'{"keys":[{"kty":"EC","crv":"' + cv + b'","x":"AA","y":"AA"}]}',
+                        b'{"keys":[{"kty":"oct","k":"AAAA","alg":"' + cv + b'","kid":"' + cv + b'"}]}', b'{"' + cv + b'":']
+        for i, b in enumerate(hostile):
+            via = vias_new[i % 4]
+            yield [dict(op="Load", ring=0, via=via, doc="anyraw", keys=[], hex=b.hex()),
+                   dict(op="Load", ring=0, via=vias_old[(i // 4) % 4], doc="anyraw", keys=[], hex=b.hex()),
+                   dict(op="RingFree", ring=0)]
         for _ in range(ncases):
             ops = []
             live = False
@@ -435,7 +449,9 @@ def c07_fuzz(ncases, per_case):
                     for _ in range(rnd.choice([1, 1, 2, 4])):
                         k = rnd.random()
                         pos = rnd.randrange(0, len(b) + 1)
-                        if k < 0.4 and pos < len(b):
+                        if k < 0.08:
+                            b[pos:pos] = rnd.choice(convs)
+                        elif k < 0.4 and pos < len(b):
                             b[pos] = rnd.choice([0x22, 0x7b, 0x7d, 0x5b, 0x5d, 0x2c, 0x3a, 0x5c, 0x00, 0xff, 0x41, 0x3d, 0x2d])
                         elif k < 0.6 and pos < len(b):
                             del b[pos]
@@ -591,8 +607,11 @@ def api_walks(ncases, length):
                             steps.append(dict(k="set", which="clm", map=0, v=val("str", rnd.choice(["sub", "iss", "cb"]), "x", 1)))
                         else:
                             steps.append(dict(k="del", which="clm", map=0, v=val("int", rnd.choice(["exp", "sub", "~"]))))
-                    if rnd.random() < 0.2:
+                    rr = rnd.random()
+                    if rr < 0.2:
                         ops.append(dict(op=rnd.choice(["BSetCb", "CSetCb"])))
+                    elif rr < 0.35:
+                        ops.append(dict(op=rnd.choice(["BSetCb", "CSetCb"]), ctxonly=1))
                     else:
                         ops.append(dict(op=rnd.choice(["BSetCb", "CSetCb"]), prog=steps))
                     ops[-1]["b" if ops[-1]["op"][0] == "B" else "c"] = o
